@@ -4,6 +4,7 @@ exhaustive enumeration on the binary built from /repo's working tree.
 
 Called by ./check (function run(ctx)); returns (found, coverage)."""
 import concurrent.futures as cf
+import http.client
 import http.server, itertools, json, os, re, shutil, socket, subprocess, tempfile, threading, time
 
 ANSI = re.compile(r"\x1b\[[0-9;]*m")
@@ -24,6 +25,8 @@ class Upstream:
         class H(http.server.BaseHTTPRequestHandler):
             def do_GET(self):
                 port = self.server.server_address[1]
+                if self.path.startswith("/slow?ms="):
+                    time.sleep(int(self.path.split("=", 1)[1]) / 1000.0)
                 code = 500 if port in outer.sick else 200
                 body = b"ok"
                 self.send_response(code)
@@ -364,6 +367,11 @@ def run(binp, tier, scratch, workers=16):
             (["remove", "nosuch"], False, None),
             (["remove", "s2"], True, {"s1": ("a.example.com", "/", t1, "running", "no")}),
             (["deploy", "s3", "--target", t2], True, {"s1": ("a.example.com", "/", t1, "running", "no"), "s3": ("*", "/", t2, "running", "no")}),
+            # a redeploy whose drain takes longer than its deploy timeout (a request is still running on the replaced target):
+            # the proxy reports success after the drain, and so must the command
+            ("slow-request", "a.example.com", 2500),
+            (["deploy", "s1", "--target", t3, "--host", "a.example.com", "--deploy-timeout", "1s", "--drain-timeout", "6s"], True,
+             {"s1": ("a.example.com", "/", t3, "running", "no"), "s3": ("*", "/", t2, "running", "no")}),
             (["remove", "s1"], True, {"s3": ("*", "/", t2, "running", "no")}),
             # TLS and plain services mixed, TLS ones sorting before and after the plain one (automatic TLS: no certificate is requested until a handshake)
             (["deploy", "a0", "--target", t1, "--host", "tls0.example.com", "--tls"], True, {"a0": ("tls0.example.com", "/", t1, "running", "yes"), "s3": ("*", "/", t2, "running", "no")}),
@@ -377,6 +385,20 @@ def run(binp, tier, scratch, workers=16):
             (["remove", "s3"], True, {}),
         ]
         for args, ok, want_list in steps:
+            if args == "slow-request":
+                # a client request that keeps its target busy for a while (through the proxy, in the background)
+                host, ms = ok, want_list
+
+                def slow(host=host, ms=ms):
+                    try:
+                        c = http.client.HTTPConnection("127.0.0.1", px.http, timeout=30)
+                        c.request("GET", "/slow?ms=%d" % ms, headers={"Host": host})
+                        c.getresponse().read()
+                    except Exception:
+                        pass
+                threading.Thread(target=slow, daemon=True).start()
+                time.sleep(0.3)
+                continue
             rc, out = px.cli(*args)
             evals += 1
             classes.add("exit-code %s %s" % (args[0] if args[0] != "rollout" else "rollout-" + args[1], "ok" if ok else "error"))
